@@ -24,6 +24,7 @@ mod c07;
 mod c17;
 mod c12;
 mod c04;
+mod gridalg;
 
 fn main() {
     let args: Vec<String> = std::env::args().collect();
@@ -55,6 +56,7 @@ fn main() {
         "c17" => c17::main(rest),
         "c12" => c12::main(rest),
         "c04" => c04::main(rest),
+        "gridalg" => gridalg::main(rest),
         other => {
             eprintln!("unknown property {other}");
             std::process::exit(2);
